@@ -5,6 +5,8 @@
   implementation on generated inputs: the kernel re-checks, against what the source says now, that the model computes
   the same function as the translated source text. Trusted here: the translator (funcs.go, a loop-free scalar subset
   of Go) and `Sipsp.GoSem`.
+  Functions that READ a byte slice (`len`, `buf[i]`) are translated into `Option`: `none` is Go's index-out-of-range
+  panic; the tie then also says that the function never panics.
   Finite domains are settled by `decide` over the whole domain (complete: such a proof can only fail when the two
   functions really differ); 64-bit flag words are first reduced to the one bit the function looks at.
   This module is built by the check as a SOFT obligation: when a function leaves the translatable subset or a tie no
@@ -15,6 +17,7 @@
 import Sipsp.Generated.Funcs
 import Sipsp.Model.Sig
 import Sipsp.Model.URI
+import Sipsp.Model.Lex
 
 namespace Sipsp.TieFuncs
 open Sipsp
@@ -189,5 +192,80 @@ theorem hdrFlagsTest_after_set (f t : UInt16) (ht : t.toNat < 16) :
     cases (f.toBitVec)[i] <;> simp
   rw [e]
   exact bne_iff_ne.mpr hne
+
+/-! ### a function that reads a slice: `skipCRLF` -/
+
+private theorem idx_nat (b : Buf) (k : Nat) : GoSem.idx? b (Int.ofNat k) = b[k]? := by
+  unfold GoSem.idx?
+  have h : ¬ ((k : Int) < 0) := by omega
+  simp [h]
+
+private theorem idx_nat1 (b : Buf) (k : Nat) : GoSem.idx? b (Int.ofNat k + 1) = b[k+1]? := by
+  have : (Int.ofNat k + 1) = Int.ofNat (k+1) := by simp
+  rw [this, idx_nat]
+
+/-- the Go error code (`ErrorHdr`, a uint32) of a model verdict -/
+def errU32 (e : Err) : UInt32 := UInt32.ofNat e.toNat
+
+private theorem ge_nat (i n : Nat) : decide ((Int.ofNat i + 1 : Int) ≥ Int.ofNat n) = decide (n ≤ i + 1) := by
+  apply decide_eq_decide.mpr
+  constructor <;> intro h
+  · have h' : (n : Int) ≤ (i : Int) + 1 := h
+    omega
+  · show (n : Int) ≤ (i : Int) + 1
+    omega
+
+private theorem lt_nat (i n : Nat) : decide ((Int.ofNat i : Int) < Int.ofNat n) = decide (i < n) := by
+  apply decide_eq_decide.mpr
+  constructor <;> intro h
+  · have h' : (i : Int) < (n : Int) := h
+    omega
+  · show (i : Int) < (n : Int)
+    omega
+
+/-- **`skipCRLF` (parse_utils.go), the line-end recogniser under every parser of the library**: the translated source —
+    with Go's index-out-of-range panic made explicit as `none` — never panics and returns exactly the model's triple
+    (offset after the line end, its length, verdict), for every buffer and every start offset ≥ 0. -/
+theorem skipCRLF_tie (b : Buf) (i : Nat) :
+    Gen.F.skipCRLF b (Int.ofNat i) =
+      some (Int.ofNat (skipCRLF b i).1, Int.ofNat (skipCRLF b i).2.1, errU32 (skipCRLF b i).2.2) := by
+  unfold Gen.F.skipCRLF skipCRLF
+  simp only [Option.bind_some, idx_nat, idx_nat1, ge_nat, lt_nat]
+  by_cases h1 : i + 1 < b.size
+  · have h0 : i < b.size := by omega
+    have e1 : b[i+1]? = some b[i+1] := Array.getElem?_eq_getElem h1
+    have e0 : b[i]? = some b[i] := Array.getElem?_eq_getElem h0
+    have hc : decide (b.size ≤ i + 1) = false := by simp; omega
+    rw [e1, e0]
+    simp only [hc, Option.bind_some]
+    generalize b[i] = c0
+    generalize b[i+1] = c1
+    by_cases a : c0 = 13
+    · subst a
+      by_cases a1 : c1 = 10
+      · subst a1; simp [errU32, Err.toNat]
+      · simp [a1, errU32, Err.toNat]
+    · by_cases a' : c0 = 10
+      · subst a'; simp [errU32, Err.toNat]
+      · simp [a, a', errU32, Err.toNat]
+  · have e1 : b[i+1]? = none := Array.getElem?_eq_none (by omega)
+    have hc : decide (b.size ≤ i + 1) = true := by simp; omega
+    rw [e1]
+    simp only [hc, if_true]
+    by_cases h0 : i < b.size
+    · have e0 : b[i]? = some b[i] := Array.getElem?_eq_getElem h0
+      have hd : decide (i < b.size) = true := by simp [h0]
+      rw [e0]
+      simp only [hd, if_true, Option.bind_some]
+      generalize b[i] = c0
+      by_cases a : c0 = 13
+      · subst a; simp [errU32, Err.toNat]
+      · by_cases a' : c0 = 10
+        · subst a'; simp [errU32, Err.toNat]
+        · simp [a, a', errU32, Err.toNat]
+    · have e0 : b[i]? = none := Array.getElem?_eq_none (by omega)
+      have hd : decide (i < b.size) = false := by simp [h0]
+      rw [e0]
+      simp [hd, errU32, Err.toNat]
 
 end Sipsp.TieFuncs
